@@ -99,7 +99,7 @@ def main():
     g = mod.gen(3)
     c = mod.coro(None)
     ag = mod.agen(2)
-    objs = [("function", mod.plain), ("closure", mod.closure(1)), ("method", k.method), ("staticmethod", mod.Klass.smeth),
+    objs = [("longcall", mod.longcall), ("function", mod.plain), ("closure", mod.closure(1)), ("method", k.method), ("staticmethod", mod.Klass.smeth),
             ("class", mod.Klass), ("generator", g), ("coroutine", c), ("asyncgen", ag), ("lambda", mod.lam),
             ("code", mod.plain.__code__), ("source", mod.SOURCE), ("expr", mod.EXPR), ("int", 42), ("module", mod)]
     kw = {"show_caches": True} if (3, 11) <= V < (3, 13) else {}
@@ -119,6 +119,13 @@ def main():
                                       dis.findlabels(co.co_code), dis.findlinestarts(co), shift, list(opcode.cmp_op))
                     rec["xdis"] = base(co, "xdis:" + ident, "x" + HOST, conv(xins, "xdis", co, X_CATS, list(XO.cmp_op)),
                                        xstd.findlabels(co.co_code), xstd.findlinestarts(co), shift, list(XO.cmp_op))
+                    if fl_name == "none":
+                        # the line table itself, for the line-table judge (LineTablesTrace.tla)
+                        from proj import fmt_of, nn
+                        tab = list(bytearray(co.co_linetable if V >= (3, 10) else co.co_lnotab))
+                        rec["lt"] = {"id": "xdis:" + ident, "fmt": fmt_of(V), "first": co.co_firstlineno, "tab": tab, "clen": len(co.co_code),
+                                     "starts": [[int(a), nn(b)] for a, b in xstd.findlinestarts(co)], "o2l": [], "ranges": [], "ulines": [], "upos": [],
+                                     "sl": [], "ioffs": [], "has": ["starts"]}
                 fh.write(json.dumps(rec) + "\n")
         # module-level tables
         tabs = {}
